@@ -22,6 +22,8 @@ class Pidfile:
         oldpid = self.validate()
         if oldpid:
             if oldpid == os.getpid():
+                # the file is already ours (stale file, re-used pid)
+                self.pid = pid
                 return
             msg = "Already running on PID %s (or pid file '%s' is stale)"
             raise RuntimeError(msg % (oldpid, self.fname))
